@@ -48,8 +48,12 @@ def main():
             first = m["earlier_check_results"][0]
             if not any(v["exit"] == 1 for v in first.values()) and caught:
                 hist = " (missed at first; check strengthened, see 14.3)"
+        tier = ""
+        if caught and any(v.get("tier") == "thorough" for v in m.get("checks", {}).values()):
+            tier = " (thorough tier)"
+        note = (" - " + m["note"].replace("|", "/")[:400]) if m.get("note") and not caught else ""
         out.append(f"| {m['id']} | {m['property']} | {needs} | {'yes' if m.get('confirmed') else 'NO'} | "
-                   f"{', '.join(caught) if caught else '**not caught**'}{hist} | {cl[:140]} |")
+                   f"{', '.join(caught) + tier if caught else '**not caught**' + note}{hist} | {cl[:140]} |")
     out.append(f"\n{c} of {n} sub-agent changes are caught.\n")
     text = "\n".join(out)
     d = open(os.path.join(VERIF, "DESIGN.md")).read()
